@@ -334,3 +334,44 @@ func zzH_C06_writerFuncErr() {
 	_, err2 := r.Read(ctx, frame.Slices(make([]int64, 1), make([]int64, 1)))
 	zz.Assert(err2 == err, "the error is sticky")
 }
+
+// zzH_C01_fold: Fold's reader emits exactly one row per distinct key of the
+// shard carrying the fold of that key's rows in arrival order (the fold
+// function is uninterpreted), for every key coincidence pattern, upstream
+// chunking and destination-size sequence.
+func zzH_C01_fold() { zzFoldHarness(3, 4, 2) }
+
+func zzFoldHarness(maxRows, calls, maxDst int) {
+	m := zzUpstream(maxRows, 1)
+	op := Fold(zzSrc2(), func(acc int64, v int64) int64 { return zz.UFInt64("foldStep", acc, v) })
+	r := op.Reader(0, []sliceio.Reader{m})
+	d := sliceio.ZZDriveReader(r, calls, 1, maxDst, "dst")
+	// reference: per output row, fold the rows with that key in arrival order
+	for i := range d.Keys {
+		for j := i + 1; j < len(d.Keys); j++ {
+			zz.Assert(d.Keys[i] != d.Keys[j], "Fold emits each distinct key once")
+		}
+		acc := int64(0)
+		present := false
+		for k := range m.Keys {
+			eq := m.Keys[k] == d.Keys[i]
+			present = zz.Or(present, eq)
+			acc = zz.IteInt64(eq, zz.UFInt64("foldStep", acc, m.Vals[k]), acc)
+		}
+		zz.Assert(present, "every emitted key is an input key")
+		zz.Assert(d.Vals[i] == acc, "the value is the fold of the key's rows in arrival order")
+	}
+	if d.Err == sliceio.EOF {
+		zz.Reach("reader reached EOF")
+		for k := range m.Keys {
+			found := false
+			for i := range d.Keys {
+				found = zz.Or(found, d.Keys[i] == m.Keys[k])
+			}
+			zz.Assert(found, "at EOF every input key was emitted")
+		}
+		if len(d.Keys) < len(m.Keys) {
+			zz.Reach("keys folded together")
+		}
+	}
+}
